@@ -22,7 +22,8 @@ mutual
 /-- a Python value found in an instance `__dict__` -/
 inductive Val where
   | none
-  /-- str / int / float / bool: compared by its `repr` token, `truthy` = `bool(value)` -/
+  /-- str / int / float / bool, given by its token `<type>:<repr>` (see `atomNum`); compared as Python's `==` does
+      (`atomEq`), `truthy` = `bool(value)` -/
   | atom (repr : String) (truthy : Bool)
   /-- an lxml element (`gds_elementtree_node_`): compared by identity -/
   | node (id : Nat)
@@ -37,11 +38,58 @@ def Obj.oid : Obj → Nat | .mk i _ _ => i
 def Obj.cls : Obj → Nat | .mk _ c _ => c
 def Obj.fields : Obj → List (Nat × Val) | .mk _ _ f => f
 
+/-- split a character list at the first occurrence of `c`: what precedes it, and (if `c` occurs) what follows -/
+def splitFirst (c : Char) : List Char → List Char × Option (List Char)
+  | [] => ([], none)
+  | x :: r => if x == c then ([], some r) else
+      let p := splitFirst c r
+      (x :: p.1, p.2)
+
+def digitsToNat : List Char → Nat → Option Nat
+  | [], acc => some acc
+  | x :: r, acc => if x.isDigit then digitsToNat r (acc * 10 + (x.toNat - '0'.toNat)) else none
+
+def parseNat (cs : List Char) : Option Nat := if cs.isEmpty then none else digitsToNat cs 0
+
+def parseInt : List Char → Option Int
+  | '-' :: r => (parseNat r).map (fun n => - (n : Int))
+  | cs => (parseNat cs).map (fun n => (n : Int))
+
+/-- the exact numeric value `(numerator, denominator)` of a number token: `int:5`, `bool:True` (Python's `bool` is
+    an `int`: `True == 1`), `float:0.5=1/2` (the harness writes the exact value of a finite float after `=`);
+    `none` for every other token (`str:…`, `float:nan`, `float:inf`, …) -/
+def atomNum (tok : String) : Option (Int × Nat) :=
+  match splitFirst ':' tok.toList with
+  | (kind, some rest) =>
+    if kind == "int".toList then (parseInt rest).map (fun n => (n, 1))
+    else if kind == "bool".toList then
+      (if rest == "True".toList then some (1, 1) else if rest == "False".toList then some (0, 1) else none)
+    else if kind == "float".toList then
+      match splitFirst '=' rest with
+      | (_, some q) =>
+        match splitFirst '/' q with
+        | (n, some d) =>
+          match parseInt n, parseNat d with
+          | some n, some d => if d == 0 then none else some (n, d)
+          | _, _ => none
+        | _ => none
+      | _ => none
+    else none
+  | _ => none
+
+/-- Python's `==` on two plain values given by their tokens: numbers of whatever type (int / float / bool) are
+    equal iff their exact values are (`1 == 1.0 == True`, `0.0 == -0.0`); anything else iff type and value, i.e. the
+    tokens, coincide (a `str` never equals a number) -/
+def atomEq (r r' : String) : Bool :=
+  match atomNum r, atomNum r' with
+  | some (n, d), some (n', d') => n * (d' : Int) == n' * (d : Int)
+  | _, _ => r == r'
+
 mutual
 /-- `a == b` (`strict = true`: as Python evaluates it; `strict = false`: lxml nodes ignored) -/
 def pyEq (strict : Bool) : Val → Val → Bool
   | .none, .none => true
-  | .atom r t, .atom r' t' => r == r' && t == t'
+  | .atom r _, .atom r' _ => atomEq r r'
   | .node a, .node b => !strict || a == b
   | .obj a, .obj b => objEq strict a b
   | .list a, .list b => listEq strict a b
